@@ -128,8 +128,13 @@ def score_lines(rows, refs: Dict, qrys: Dict, extra: Dict, parsed_main, tag) -> 
                             "sh": d10(pr["sh"]), "sc": int(round(pr["sc"] * unit))})
             segs.append({"peak": d10(s_.peak.position), "pos": pos})
         x0 = qry["x"][0]
-        out.append({"in": {"ref": ref["x"], "qry": [v - x0 for v in qry["x"]], "qlen": qry["x"][-1] - x0 + 1,   # the model mirrors with (qlen - 1) - x in its own unit (deci-bp here)
-                           "shift": 0, "rev": bool(row.reverseStrand), "peaks": [], "par": par},
+        # the (part of the) molecule this row is an alignment of: a second-pass row aligns a FRAGMENT (a range of label
+        # numbers, cut by index), and in 'best' mode such a row no longer says so; the labels demonstrably handed to
+        # the aligner are those between the smallest and the largest label number that occurs in the row
+        present = [p_["q"][0] for g in segs for p_ in g["pos"] if p_["k"] in ("P", "Q")]
+        lo_q, hi_q = (min(present), max(present)) if present else (1, len(qry["x"]))
+        out.append({"in": {"ref": ref["x"], "qry": [v - x0 for v in qry["x"][lo_q - 1:hi_q]], "qlen": qry["x"][-1] - x0 + 1,   # the model mirrors with (qlen - 1) - x in its own unit (deci-bp here)
+                           "shift": lo_q - 1, "rev": bool(row.reverseStrand), "peaks": [], "par": par},
                     "segs": segs, "conf": int(round(float(row.confidence) * unit)), "written": recs[k]["conf"],
                     "tag": dict(tag, query=pipeline.qid(row.queryId), rest=recs[k]["rest"], segments=len(segs))})
     return out
